@@ -143,6 +143,10 @@ func (w *weaver) rewriteCall(call *ast.CallExpr) ast.Expr {
 			w.used = true
 			w.stats["seam"]++
 			return simcall("DialerDialContext", append([]ast.Expr{w.addr(sel.X)}, call.Args...)...)
+		case "github.com/google/uuid.NewString":
+			w.used = true
+			w.stats["seam"]++
+			return simcall("UUIDString")
 		case "go.etcd.io/etcd/client/v3.New":
 			w.usedEtcd = true
 			w.stats["seam"]++
@@ -468,6 +472,12 @@ func main() {
 			}
 			if w.usedEtcd {
 				astutil.AddNamedImport(p.Fset, f, "simetcd", "verif/sim/simetcd")
+			}
+			// a seam may have replaced the only use of an import
+			for _, imp := range []string{"github.com/google/uuid", "net"} {
+				if !astutil.UsesImport(f, imp) {
+					astutil.DeleteImport(p.Fset, f, imp)
+				}
 			}
 			var buf bytes.Buffer
 			if err := format.Node(&buf, p.Fset, f); err != nil {
